@@ -672,6 +672,14 @@ pub fn gen_trace(p: &mut Prng) -> Vec<(u64, bool)> {
         }
         out.push((t, dir));
     }
+    // one trace in twelve spans more than 2^32 microseconds (71.6 minutes): a gap of 1.2 to 3 hours
+    if out.len() >= 2 && p.chance(1, 12) {
+        let at = 1 + p.below(out.len() as u64 - 1) as usize;
+        let shift = 4_300_000_000_000 + p.below(6_500_000_000_000);
+        for x in out.iter_mut().skip(at) {
+            x.0 += shift;
+        }
+    }
     out
 }
 
